@@ -652,6 +652,7 @@ void node_lvalue_arg(uint32_t vid)
 }
 
 void set_alloc_tracking(bool) {}
+void functor_mutable() { OpRec* o = cur(); if (o) ++o->mutable_functor_calls; }
 void functor_owner(int owner) { OpRec* o = cur(); if (o && owner != o->expected_owner) ++o->foreign_functor_calls; }
 void set_expected_owner(int owner) { OpRec* o = cur(); if (o) o->expected_owner = owner; }
 void own_copies(int delta) { OpRec* o = cur(); if (o) o->own_copy_depth += delta; }
